@@ -24,6 +24,10 @@ fn main() {
         bridge::quiet_panics();
         c14stress::run(args.get(2).map(|s| s.as_str()) != Some("thorough"));
     }
+    if args.get(1).map(|s| s.as_str()) == Some("c15-deep") {
+        bridge::quiet_panics();
+        c15::deep_child(&args[2..]);
+    }
     let (prop, tier, _rest) = parse_args();
     bridge::quiet_panics();
     match prop.as_str() {
